@@ -109,6 +109,14 @@ def corpus(props: List[str]) -> List[Dict[str, Any]]:
         except ModuleNotFoundError:
             continue
         out.extend(mod.MUTANTS)
+    # behaviour-preserving refactorings contributed by independent sub-agents (tools_eq.py): must stay silent
+    import json
+    for f in sorted((Path(__file__).parent / 'equiv').glob('*.json')):
+        rec = json.loads(f.read_text())
+        eds = [tuple(e) for e in rec['edits']]
+        for p in props:
+            if p in rec['props']:
+                out.append(M(p, rec['name'], eds[0][0], eds[0][1], eds[0][2], None, also=list(eds[1:])))
     return out
 
 
